@@ -3,6 +3,16 @@
 import json
 
 CHECKS = {
+ "C05": dict(level="model_checking", engine="E1",
+   technique="explicit-state BFS over stimulus histories of a real Litep2p (real TransportManager/PeerState/limits/address store) over a scripted transport; per-attempt outcome ledger, silence check, quiescent re-dial probes",
+   text="All histories up to depth 5 (quick) / 7 (thorough) of dial, dial_address, add_known_address, protocol-side dial, every feasible transport answer for every outstanding call (opened with/without partial errors, open failure, established, dial failure), inbound connections from the same peers, accept completion, closures and a local protocol exiting, under four limit configurations, on the real node. Ledger by connection id: each started attempt gets exactly one of established / failure naming dialed addresses / superseded-by-accepted-connection; an attempt with no network activity left and no outcome is silence; at every new state a throw-away rebuild probes that an idle, unconnected peer with addresses is really dialed again.",
+   note="The scripted transport is restricted to what the real TcpTransport can do (no event after cancel/reject, negotiate cannot fail after ConnectionOpened, fresh ids for inbound); that contract is argued from tcp/mod.rs in DESIGN §2.3. Two remote peers, two addresses each, <=4 attempts per history. select! branch order fixed by runtime seed; one stimulus at a time. Known findings F4 and F7 (four signatures) are listed in known_findings.json; exploration continues past them.",
+   design="§4 C05"),
+ "C06": dict(level="model_checking", engine="E1",
+   technique="same explicit-state exploration as C05 with cap monitors on the harness's own ground truth and release probes",
+   text="On every explored state of the C05 model: at most two accepted connections per peer, accepted inbound/outbound never above the configured maxima (ground truth = accept() calls not closed or rolled back, never the manager's own counters), pending inbound connections and negotiated connections are not rejected below the limits, the manager's counted sets equal the ground truth (capacity released exactly on close / roll-back), and on a throw-away rebuild an inbound connection from an idle unconnected peer is accepted whenever the node is below its inbound limit and dial() is not refused below the outbound limit.",
+   note="Same environment contract and bounds as C05. Limit configurations: none, (0,0), (1,1), (in 2, out 1).",
+   design="§4 C06"),
  "C20": dict(level="exploration", engine="E3",
    technique="exhaustive enumeration of CID-prefix / payload / tamper grids and of block-size sequences through the real block verification and batching functions, independent digest recomputation",
    text="Inbound: every (version, codec, hash code incl. all 12 computable codes found by scanning 131k codes, claimed length) prefix x data size, every truncation / trailing byte / non-minimal / overflowing varint of valid prefixes, every single-byte tamper of payloads: a delivered block must carry the bytes handed in and a CID whose digest is an independent SHA-2 (or code-table) hash of exactly those bytes; malformed or uncomputable prefixes must be dropped; encode->decode->verify round trip for every computable combination. Outbound: all block-size sequences of length <=5 over 7 sizes with small limits, all sequences around the real 2 MiB / 4 MiB limits with full wire decode, and the many-tiny-blocks overhead family: every batch within limits, exact in-order exactly-once concatenation minus oversized blocks, termination.",
